@@ -6,7 +6,7 @@ TRUSTED_BASE = [
     'axioms: none declared by the development; Print Assumptions of every property theorem is re-run in each check (see last entry)',
     'extraction: Require ExtrOcamlBasic only (Extract Inductive bool/option/unit/list/prod/sumbool/sumor, Extract Inlined Constant fst/snd/andb/orb... as that file lists them); Z/positive/N stay Coq data types; OCaml 4.13.1 ocamlfind ocamlopt',
     'the extracted model is cross-checked against the kernel on every e2e run: a sample of the cases is evaluated by vm_compute inside coqc (cases.v) and compared with the OCaml model (coverage.kernel_crosscheck)',
-    'the translator translate/*.go (main.go, effects.go, inval.go, maps.go, hdrprog.go) with its symbol and operation tables (DESIGN.md section 9: which model term a Go accessor or callee denotes; the iteration order of a Go map does not matter in the two folds of helpers.go; url.Parse is parse_url with its error branch not represented): the generated definitions are proved equal to the hand-written model (Cxx_source_* theorems)',
+    'the translator translate/*.go (main.go, effects.go, inval.go, maps.go, hdrprog.go, vary.go) with its symbol and operation tables (DESIGN.md section 9: which model term a Go accessor or callee denotes; the iteration order of a Go map does not matter in the two folds of helpers.go; url.Parse is parse_url with its error branch not represented): the generated definitions are proved equal to the hand-written model (Cxx_source_* theorems)',
     'hand-written glue: model/driver.ml (token parser/printer), bin/vlib.py (projection, comparison, known-finding filter), harness/*.go (generators, scripted origin, recording Conn, testing/synctest virtual clock)',
     'modelled, not verified: net/url.Parse/ResolveReference/EscapedPath (re-implemented for the generated grammar), http.ParseTime (IMF-fixdate, RFC 850 and asctime in their strict spellings with zone GMT), http.CanonicalHeaderKey, strconv.ParseInt/Atoi, Duration.Seconds float rounding, encoding/json of the index (identity on ASCII), httputil.DumpResponse/http.ReadResponse (typed store in the transport model; byte level in Wire.v), slog (no effect), Go scheduler/memory model, kernel file system, AES-GCM',
 ]
@@ -147,7 +147,7 @@ PROPS['C19']['e2e'].append(dict(profile='inval', n_quick=500, n_thorough=5000))
 PROPS['C01']['engines'] = ['e2e', 'realclock']
 PROPS['C11']['engines'] = PROPS['C11'].get('engines', ['e2e']) + ['realclock']
 PROPS['C02']['engines'] = PROPS['C02'].get('engines', ['e2e']) + ['overlap']
-for _p in ('C07', 'C09', 'C10', 'C13', 'C14', 'C15', 'C16', 'C17', 'C19'):
+for _p in ('C03', 'C07', 'C09', 'C10', 'C13', 'C14', 'C15', 'C16', 'C17', 'C19'):
     PROPS[_p]['engines'] = PROPS[_p].get('engines', ['e2e']) + ['scenario']
 PROPS['C01']['rule'] += ('; plus TestRealClock: responses received with a saturating Age (2^63 ns and more) and a stale-while-revalidate / max-age / request max-stale / min-fresh '
                          'combination, requested again with the real clock (between two clock readings of one RoundTrip a few nanoseconds pass, which inside the virtual-time bubble they do not)')
